@@ -315,7 +315,8 @@ redactUpdatePipeline(c, p, eager) ==
 
 QueryKeys    == {"query", "filter", "sort", "q"}
 UpdateKeys   == {"update", "u"}
-ArrayKeys    == {"updates", "deletes"}
+ArrayKeys    == {"updates", "deletes", "arrayFilters"}    \* arrayFilters: fix bc945a7
+ConstKeys    == {"c"}                                          \* constants of a pipeline-style update (same fix)
 NamespaceFields == {"ns", "aggregate", "insert", "find", "update", "collection", "delete", "$db", "count",
                     "findAndModify", "findOneAndDelete", "replace", "findOneAndReplace", "findOneAndUpdate",
                     "getIndexes", "countDocuments"}
@@ -328,7 +329,7 @@ redactCommand(c, cmd, eager) ==
         v == cmd.kv[i][2]
     IN << k,
           IF k \in QueryKeys /\ v.t = "obj" THEN redactQueryValues(c, v, eager, FALSE, Nil, << >>)
-          ELSE IF k \in UpdateKeys /\ v.t = "obj" THEN redactQueryValues(c, v, eager, FALSE, Nil, << >>)
+          ELSE IF k \in UpdateKeys \cup ConstKeys /\ v.t = "obj" THEN redactQueryValues(c, v, eager, FALSE, Nil, << >>)
           ELSE IF k \in UpdateKeys /\ v.t = "arr" THEN redactUpdatePipeline(c, v, eager)
           ELSE IF k \in ArrayKeys /\ v.t = "arr" THEN redactArrayValues(c, v, eager, FALSE, FALSE, << >>)
           ELSE IF k = "documents" /\ v.t = "arr" /\ HasKey(cmd, "insert")
